@@ -215,6 +215,37 @@ def _cover_start():
     mon.set_events(tool, mon.events.LINE)
 
 
+class debug_logging:
+    """Environment answer 'the log level is DEBUG': logging is switched on (root logger at DEBUG, nothing emitted - every handler is muted) for the
+    duration of one case, so that code guarded by isEnabledFor(DEBUG) / lazy debug messages runs as it does under LOGLEVEL=DEBUG."""
+
+    def __enter__(self):
+        root = logging.getLogger()
+        self.saved = (logging.root.manager.disable, root.level, [(h, h.level) for h in root.handlers])
+        logging.disable(logging.NOTSET)
+        root.setLevel(logging.DEBUG)
+        for h in root.handlers:
+            h.setLevel(logging.CRITICAL + 1)
+        if not root.handlers:
+            self.null = logging.NullHandler()
+            root.addHandler(self.null)
+        else:
+            self.null = None
+
+    def __exit__(self, *a):
+        root = logging.getLogger()
+        dis, lvl, hs = self.saved
+        if self.null is not None:
+            root.removeHandler(self.null)
+        for h, l in hs:
+            h.setLevel(l)
+        root.setLevel(lvl)
+        logging.disable(dis if dis else logging.CRITICAL)
+
+
+DEBUG_STRIDE = 8  # every 8th case of every family is executed a second time with the log level at DEBUG
+
+
 def _worker(args):
     wid, nw, pid, tier, seed = args
     _tier_for_limit[0] = tier
@@ -251,6 +282,15 @@ def _worker(args):
                 if (idx // chunk) % nw != wid:
                     continue
                 res = safe_run_case(mod, case)
+                if idx % DEBUG_STRIDE == 3 and not getattr(mod, "NO_DEBUG_RERUN", False):
+                    # the same case once more with the log level at DEBUG: an answer must not depend on whether anybody is listening
+                    with debug_logging():
+                        res2 = safe_run_case(mod, case)
+                    st["extra"]["cases_repeated_at_loglevel_DEBUG"] += 1
+                    have = {v["signature"] for v in res.get("violations") or []}
+                    for v in res2.get("violations") or []:
+                        if v["signature"] not in have:
+                            res.setdefault("violations", []).append(dict(v, signature=v["signature"] + ":loglevel=DEBUG", message="(only with the log level at DEBUG) " + (v.get("message") or ""), debug_level=True))
                 st["evaluations"] += res.get("evaluations", 1)
                 fst["evaluations"] += res.get("evaluations", 1)
                 st["bulk"] += res.get("bulk_nontrivial", 0)
@@ -489,7 +529,13 @@ def run_replay(pid, path, confirm=False, history=False):
                 safe_run_case(mod, case)
             if done:
                 break
-    res = safe_run_case(mod, rp["case"])
+    if rp["signature"].endswith(":loglevel=DEBUG"):
+        with debug_logging():
+            res = safe_run_case(mod, rp["case"])
+        for v in res.get("violations") or []:
+            v["signature"] += ":loglevel=DEBUG"
+    else:
+        res = safe_run_case(mod, rp["case"])
     sigs = [v["signature"] for v in res.get("violations") or []]
     if confirm:
         known_sigs = {k["signature"] for k in load_known() if k.get("property") == pid and k.get("status") == "known"}
